@@ -451,9 +451,11 @@ func (s *Stream) handleFrame(f Frame) (err error) {
 	}
 
 	if err != nil {
+		if s.state == StateActive {
+			// TODO consider flushing the close
+			s.prepareClose(EncodeCloseFramePayload(CloseProtocolError, ""))
+		}
 		s.state = StateClosedByUs
-		// TODO consider flushing the close
-		s.prepareClose(EncodeCloseFramePayload(CloseProtocolError, ""))
 	}
 
 	return err
